@@ -259,31 +259,6 @@ func getAll(r protoreflect.Message, depth int) string {
 	return strings.Join(parts, ";")
 }
 
-// nilOutMapValue sets the same entry of the same message-valued map to a nil
-// pointer in every copy. It reports whether it found such a map.
-func nilOutMapValue(t *simhook.Tape, copies ...proto.Message) bool {
-	first := reflect.ValueOf(copies[0]).Elem()
-	var cands []int
-	for i := 0; i < first.NumField(); i++ {
-		f := first.Field(i)
-		if f.Kind() == reflect.Map && f.Type().Elem().Kind() == reflect.Pointer && f.Len() > 0 && first.Type().Field(i).PkgPath == "" {
-			cands = append(cands, i)
-		}
-	}
-	if len(cands) == 0 {
-		return false
-	}
-	fi := cands[t.Draw("nilmap-field", len(cands))]
-	keys := first.Field(fi).MapKeys()
-	sort.Slice(keys, func(i, j int) bool { return fmt.Sprint(keys[i].Interface()) < fmt.Sprint(keys[j].Interface()) })
-	k := keys[t.Draw("nilmap-key", len(keys))]
-	for _, c := range copies {
-		f := reflect.ValueOf(c).Elem().Field(fi)
-		f.SetMapIndex(k, reflect.Zero(f.Type().Elem()))
-	}
-	return true
-}
-
 func lenOrNil(v reflect.Value) string {
 	switch v.Kind() {
 	case reflect.Pointer, reflect.Interface:
@@ -445,13 +420,15 @@ func runReaders(c *simrun.Ctx) *simrun.Violation {
 	if useStruct && emptyNotNil && emptyCap > 0 || !useStruct && truncate {
 		st.Add("fault_empty_lists_with_spare_capacity", 1)
 	}
-	if t.Chance("nil-map-value", 1, 8) {
-		// a message-valued map entry whose value is a nil pointer: the state a
-		// key-only map entry on the wire leaves behind on the current tree.
-		// Reads may panic on it (property C09's business); they must do so
-		// identically for the sequential reader and must not write.
-		if nilOutMapValue(t, shared, private, equalPeer) {
-			st.Add("fault_nil_message_map_value", 1)
+	if t.Chance("odd-shape", 1, 6) {
+		// an odd-but-constructible state, the same in every copy: a nil message
+		// map value (what a key-only map entry on the wire leaves behind on the
+		// current tree), a typed-nil oneof wrapper, a oneof wrapper with a nil
+		// message. Reads may panic on it (property C09's business); they must do
+		// so identically for the sequential reader and must not write.
+		kind := t.Draw("odd-kind", 3)
+		if simval.OddShape(kind, t.Draw("odd-sel", 1<<16), shared, private, equalPeer) {
+			st.Add([]string{"fault_nil_message_map_value", "fault_typed_nil_oneof_wrapper", "fault_oneof_wrapper_with_nil_message"}[kind], 1)
 		}
 	}
 	env := &opEnv{equalPeer: equalPeer, unequalPeer: unequalPeer}
